@@ -64,6 +64,10 @@ PROBES = [
     ("temp.closures", "fn mk(n) { var c = [n]; return || c; } print(mk(1)()); print([mk(2), mk(3)][1]()); var fb = Fiber.new(mk(4)); churn(); print(fb.call());"),
     ("temp.ranges", "fn mk() { return [10, 20, 30, 40]; } for x in mk()[1..3] { churn(); print(x); } var r = (1..3); print(mk()[r]); print((0..2).iter().map(|i| [i]).collect());"),
     ("temp.throw", "fn mk(n) { return [n, [n]]; } try { throw mk(1); } catch e { churn(); print(e); } fn t() { throw [mk(2), mk(3)]; } try { t(); } catch e { churn(); print(e); }"),
+    # the callee itself is a temporary: the only reference to the bound-method object is the stack slot the call overwrites (F48)
+    ("temp.bound.native.callee", "print(((\"ab\" + \"c\").iter)().next()); var it = ([[1], [2]].iter)(); churn(); print(it.next()); print(it.next()); print(([1, 2, 3].len)()); print(((\"k\" + \"v\").len)());"),
+    ("temp.bound.closure.callee", "#[constructor(new)] class B { fn m(self, a) { return [a, [a]]; } } try { (B.new().m)(); } catch e { print(type(e)); } print((B.new().m)(1)); var r = (B.new().m)([2]); churn(); print(r);"),
+    ("temp.instance.field.callee", "#[constructor(new)] class H {} fn mk(f) { var h = H.new(); h.f = f; return h; } print(mk(String.from).f(12345)); var it = mk((\"xy\" + \"z\").iter).f(); churn(); print(it.next()); print(mk(|| [1, [2]]).f()); print(mk([5, 6].len).f());"),
     ("fiber.in.field", "#[constructor(new)] class H {} var h = H.new(); h.fb = Fiber.new(|| { var x = [4]; Fiber.yield(x); return x; }); print(h.fb.call()); churn(); print(h.fb.call());"),
     ("exception.in.flight", "try { try { throw [1, [2]]; } finally { churn(); } } catch e { print(e); }"),
     ("exception.instance", "try { var z = nil + 1; } catch e { churn(); print(e.context); print(type(e)); }"),
